@@ -260,6 +260,36 @@ Definition percentage_global (bs : list block) (byte : Z) : option (N * N) :=
 (* histogram specification *)
 Definition occ (c : N) (l : list N) : N := N.of_nat (length (filter (N.eqb c) l)).
 
+(* ------------------------------------------------------------------ math.monte_carlo_pi: the integer core
+   The bytes of the range are taken in groups of six (a running index over the whole range, fix 344810f);
+   a group is a point (mx, my) with 24-bit big-endian coordinates; it is a hit when
+   mx*mx + my*my <= (256^3 - 1)^2.  All these numbers are below 2^49, so the C doubles hold them exactly.
+   State: the bytes of the unfinished group (monte[0 .. mpos % 6)), mcount, inmont. *)
+Local Open Scope N_scope.
+Definition mc_incirc : N := 281474943156225.                       (* pow(pow(256.0, 3.0) - 1, 2.0) = (2^24 - 1)^2 *)
+Definition mc_coord (a b c : N) : N := (a * 256 + b) * 256 + c.    (* mx = (mx * 256.0) + monte[j], three times *)
+Definition mc_hit (a b c d e f : N) : bool :=
+  mc_coord a b c * mc_coord a b c + mc_coord d e f * mc_coord d e f <=? mc_incirc.
+Definition mc_state := (list N * N * N)%type.
+Definition mc0 : mc_state := ([], 0, 0).
+Definition mc_step (st : mc_state) (x : N) : mc_state :=
+  let '(p, m, i) := st in
+  match p with
+  | [a; b; c; d; e] => ([], m + 1, if mc_hit a b c d e x then i + 1 else i)
+  | _ => (p ++ [x], m, i)
+  end.
+Definition mc_update (st : mc_state) (l : list N) : mc_state := fold_left mc_step l st.
+(* (mcount, inmont) of a byte sequence; the float result is fabs((4.0 * inmont / mcount - PI) / PI), undefined when mcount = 0 *)
+Definition mc_counts (l : list N) : N * N := let '(_, m, i) := mc_update mc0 l in (m, i).
+Definition data_monte_carlo (fixd : bool) (bs : list block) (off len : Z) : option (N * N) :=
+  option_map (fun st : mc_state => let '(_, m, i) := st in (m, i)) (range_walk mc_update fixd bs off len mc0).
+(* specification: complete groups of six from the start of the sequence; a trailing 1..5 bytes are ignored *)
+Fixpoint mc_spec (l : list N) : N * N :=
+  match l with
+  | a :: b :: c :: d :: e :: f :: r => let '(m, i) := mc_spec r in (m + 1, if mc_hit a b c d e f then i + 1 else i)
+  | _ => (0, 0)
+  end.
+
 (* ------------------------------------------------------------------ math: integer functions *)
 Local Open Scope Z_scope.
 (* return_integer(v): the value YR_UNDEFINED *is* "undefined" *)
